@@ -463,9 +463,11 @@ impl ClusterActor {
             .map(|w| w.get())
             .unwrap_or(0);
 
-        // Adjust end_sequence to respect watermark
+        // Adjust end_sequence to respect watermark. The watermark is the number of
+        // confirmed events, so this bound is exclusive: only sequences below it may
+        // be returned
         let effective_end_sequence = match end_sequence {
-            Some(end) => end.min(watermark),
+            Some(end) => end.saturating_add(1).min(watermark),
             None => watermark,
         };
 
@@ -479,8 +481,8 @@ impl ClusterActor {
             "reading partition locally"
         );
 
-        // If start_sequence is beyond watermark, no events to return
-        if start_sequence > watermark {
+        // If start_sequence is at or beyond watermark, no events to return
+        if start_sequence >= watermark {
             reply_sender.send(Ok(PartitionEvents {
                 events: Vec::new(),
                 has_more: false,
@@ -525,8 +527,8 @@ impl ClusterActor {
                             break 'iter;
                         }
 
-                        // Check if event is beyond effective end sequence
-                        if event.partition_sequence > effective_end_sequence {
+                        // Check if event is at or beyond the (exclusive) effective end sequence
+                        if event.partition_sequence >= effective_end_sequence {
                             break 'iter;
                         }
 
@@ -541,9 +543,7 @@ impl ClusterActor {
                     break;
                 }
 
-                if events.last().map(|e| e.partition_sequence).unwrap_or(0)
-                    >= effective_end_sequence
-                {
+                if last_read_sequence >= effective_end_sequence {
                     break;
                 }
             }
